@@ -47,7 +47,12 @@ Definition nearest (f : fval) : pnum :=
   match f with
   | Fin ng mant e10 =>
       let m := Z.of_N mant in
-      if 0 <=? e10 then nearest_q ng (m * 10 ^ e10) 1 else nearest_q ng m (10 ^ (- e10))
+      (* decimals that need no arithmetic (a damaged file can hold an exponent of a dozen digits, and 10^e10 is
+         computed exactly below): zero; beyond 10^400 (overflow); below 10^-400 (m < 2^(log2 m + 1) <= 10^(log2 m + 1)) *)
+      if m =? 0 then PDy ng 0 0
+      else if 400 <? e10 then PInf ng
+      else if e10 + Z.log2 m + 1 <? -400 then PDy ng 0 0
+      else if 0 <=? e10 then nearest_q ng (m * 10 ^ e10) 1 else nearest_q ng m (10 ^ (- e10))
   | Inf ng => PInf ng
   | NaN => PNan
   end.
